@@ -1248,7 +1248,7 @@ def k_as_idem(case, sub, d):
 def k_unique_max(case, sub, d):
     """unique(full={'min','max','type':int}) hands out max itself, which its own validation rejects"""
     full = case.get('full', {})
-    if full.get('kind') != 'dict' or full.get('type') != 'int' or _d(d, 'second_call'):
+    if full.get('kind') != 'dict' or full.get('type') != 'int':
         return False
     if sub == 'C16.unique_member':
         return _d(d, 'value') == full['max']
@@ -1275,17 +1275,14 @@ def k_sync_array(case, sub, d):
 
 
 KNOWN = {
-    'F11a-out-of-range-index-disables-selection': k_f11a,
+    # (the defects F11a, negative index in impose_bounds, impose_at list targets, impose_unique deleting the caller's
+    #  'type' key and synchronized with ndarray input were repaired in /repo: their predicates are no longer active)
     'F11b-ints-casts-unselected': k_f11b,
-    'F20-impose_bounds-negative-index-ignored': k_bounds_negative,
-    'F21-impose_bounds-nearest-picks-far-end-in-gap': k_bounds_nearest,
-    'F22-impose_bounds-int-input-truncated': k_bounds_int,
-    'F23-impose_at-list-target-with-out-of-range-index-raises': k_at_shape,
-    'F24-impose_at-int-input-truncates-target': k_at_int,
-    'F25-impose_as-chain-order-not-tied': k_as_split,
-    'F26-impose_as-out-of-range-first-member': k_as_oor_source,
-    'F27-impose_as-offset-reapplied-to-conforming-input': k_as_idem,
-    'F28-unique-dict-int-hands-out-max': k_unique_max,
-    'F29-unique-deletes-type-key-of-callers-dict': k_unique_type,
-    'F30-synchronized-ndarray-tuple-spec-ignored': k_sync_array,
+    'F31-impose_bounds-nearest-picks-far-end-in-gap': k_bounds_nearest,
+    'F32-impose_bounds-int-input-truncated': k_bounds_int,
+    'F33-impose_at-int-input-truncates-target': k_at_int,
+    'F34-impose_as-chain-order-not-tied': k_as_split,
+    'F35-impose_as-out-of-range-first-member': k_as_oor_source,
+    'F36-impose_as-offset-reapplied-to-conforming-input': k_as_idem,
+    'F37-unique-dict-int-hands-out-max': k_unique_max,
 }
